@@ -179,12 +179,15 @@ structure ClosedH (P : BSt → Prop) : Prop where
   dropCtx : ∀ s i, P s → (s.th i).valid = false → (Backend.ctxEmpty s i).2 = true →
     (s.cfg.cleanupKeepsUnreported = true → (s.th i).fail = 0) → P (dropCtx (Backend.ctxEmpty s i).1 i)
 
-/-- what a state predicate must be closed under for the skeleton to carry it through every schedule -/
-structure Closed (P : BSt → Prop) : Prop extends ClosedH P where
+/-- closure under the steps of the read pass (`_read_and_decode_frontend_queue`) -/
+structure ClosedQ (P : BSt → Prop) : Prop where
   prepRead : ∀ s i, P s → P (s.setTh i (fun t => { t with q := (qPrepareRead s.cfg (s.th i).q).1 }))
   commitRead : ∀ s i, P s → P (s.setTh i (fun t => { t with q := qCommitRead s.cfg t.q }))
   readOne : ∀ s i st rest, P s → (s.th i).qStmts = st :: rest → (qPrepareRead s.cfg (s.th i).q).2 = true →
     P (readOne s i st rest)
+
+/-- what a state predicate must be closed under for the skeleton to carry it through every schedule -/
+structure Closed (P : BSt → Prop) : Prop extends ClosedH P, ClosedQ P where
   pop : ∀ s i st rest, P s → (s.th i).buf = st :: rest → P (popStep s i st rest)
   failReset : ∀ s i, P s → 0 < (s.th i).fail → P (failReset s i)
   front : ∀ s f, P s → P (applyFront s f).1
@@ -253,7 +256,20 @@ theorem cleanupContexts_closed (hc : ClosedH P) (s : BSt) (h : P s) : P (cleanup
   · exact h
   · exact cleanupGo_closed hc _ s h
 
-theorem cleanupLoggers_closed (hc : ClosedH P) (s : BSt) (h : P s) : P (cleanupLoggers s) := by
+/-- the sinks a logger erase releases: per destroyed sink the kill, the destructor event, then site 9 -/
+theorem reapSinksInj_closed (hc : ClosedH P) (inj : BSt → Nat → BSt) (hinj : ∀ s site, P s → P (inj s site))
+    (s : BSt) (sids : List Nat) (h : P s) : P (reapSinksInj inj s sids) := by
+  unfold reapSinksInj
+  refine foldl_inv P _ ?_ _ _ h
+  intro a sid ha
+  split
+  · exact hinj _ 9 (hc.frame _ _ ha
+      ((Frame.setSink a sid (fun k => { k with alive := false }) (fun k => ⟨rfl, rfl, rfl, rfl, rfl, rfl⟩)).trans
+        (Frame.emit _ _ rfl)))
+  · exact ha
+
+theorem cleanupLoggers_closed (hc : ClosedH P) (inj : BSt → Nat → BSt) (hinj : ∀ s site, P s → P (inj s site))
+    (s : BSt) (h : P s) : P (cleanupLoggers inj s) := by
   unfold cleanupLoggers
   split
   · exact h
@@ -267,7 +283,7 @@ theorem cleanupLoggers_closed (hc : ClosedH P) (s : BSt) (h : P s) : P (cleanupL
         P (l.foldl (fun (acc : BSt × List Nat) (i : Nat) =>
             if (acc.1.lgOf i).valid then acc else
             if (allEmpty acc.1).2 then
-              (reapSinks ((allEmpty acc.1).1.setLg i (fun l => { l with erased := true })) (acc.1.lgOf i).sinks,
+              (reapSinksInj inj ((allEmpty acc.1).1.setLg i (fun l => { l with erased := true })) (acc.1.lgOf i).sinks,
                acc.2 ++ [(acc.1.lgOf i).gid])
             else ({ (allEmpty acc.1).1 with hasInvalidLoggers := true }, acc.2)) acc).1 := by
       intro l
@@ -277,7 +293,8 @@ theorem cleanupLoggers_closed (hc : ClosedH P) (s : BSt) (h : P s) : P (cleanupL
       · exact ha
       · have hA := allEmpty_closed hc a.1 ha
         split
-        · exact hc.frame _ _ hA ((Frame.setLg _ i (fun l => { l with erased := true }) (fun l => ⟨rfl, rfl, rfl⟩)).trans (reapSinks_frame _ _))
+        · exact reapSinksInj_closed hc inj hinj _ _
+            (hc.frame _ _ hA (Frame.setLg _ i (fun l => { l with erased := true }) (fun l => ⟨rfl, rfl, rfl⟩)))
         · exact hc.frame _ _ hA (Frame.of_eq rfl rfl rfl rfl rfl rfl rfl rfl rfl rfl rfl rfl rfl (fun _ h => h))
     have h2 := h1 order (s0, []) h0
     -- raising the removal flags
@@ -318,7 +335,7 @@ theorem readQueue_succ (inj : BSt → Nat → BSt) (tsNow : Option Nat) (i fuel 
   rw [readQueue]
   rfl
 
-theorem readQueue_closed (hc : Closed P) (inj : BSt → Nat → BSt) (hinj : ∀ s site, P s → P (inj s site))
+theorem readQueue_closed (hc : ClosedQ P) (inj : BSt → Nat → BSt) (hinj : ∀ s site, P s → P (inj s site))
     (tsNow : Option Nat) (i : Nat) : ∀ (fuel total : Nat) (s : BSt), P s → P (readQueue inj tsNow i fuel total s)
   | 0, _, s, h => by unfold readQueue; exact h
   | fuel + 1, total, s, h => by
@@ -344,14 +361,15 @@ theorem readQueue_closed (hc : Closed P) (inj : BSt → Nat → BSt) (hinj : ∀
           · exact hc.commitRead _ i h4
     · rw [if_pos (by simpa using hr)]; exact hfin _ h1
 
-theorem populate_closed (hc : Closed P) (inj : BSt → Nat → BSt) (hinj : ∀ s site, P s → P (inj s site))
+theorem populate_closed' (hr : ∀ s, P s → P (refreshCache s)) (hc : ClosedQ P) (inj : BSt → Nat → BSt)
+    (hinj : ∀ s site, P s → P (inj s site))
     (s : BSt) (h : P s) : P (populate inj s).1 := by
   unfold populate
   dsimp only
   have ha : P (if s.cfg.refreshAfterSample = true then s else refreshCache s) := by
     split
     · exact h
-    · exact hc.refresh s h
+    · exact hr s h
   generalize (if s.cfg.refreshAfterSample = true then s else refreshCache s) = sa at ha ⊢
   have hb : P (if sa.cfg.grace = 0 then sa else inj sa 7) := by
     split
@@ -361,12 +379,15 @@ theorem populate_closed (hc : Closed P) (inj : BSt → Nat → BSt) (hinj : ∀ 
   have h1 := hinj sb 1 hb
   have h2 : P (if sb.cfg.refreshAfterSample = true then refreshCache (inj sb 1) else inj sb 1) := by
     split
-    · exact hc.refresh _ h1
+    · exact hr _ h1
     · exact h1
   generalize (if sb.cfg.refreshAfterSample = true then refreshCache (inj sb 1) else inj sb 1) = s2 at h2 ⊢
   refine foldl_inv (fun a : BSt × Nat => P a.1) _ ?_ _ _ h2
   intro a i hA
   exact readQueue_closed hc inj hinj _ i _ _ _ (hinj _ 2 hA)
+
+theorem populate_closed (hc : Closed P) (inj : BSt → Nat → BSt) (hinj : ∀ s site, P s → P (inj s site))
+    (s : BSt) (h : P s) : P (populate inj s).1 := populate_closed' hc.refresh hc.toClosedQ inj hinj s h
 
 theorem processLowest_eq (inj : BSt → Nat → BSt) (s : BSt) :
     processLowest inj s =
@@ -413,6 +434,25 @@ theorem processLowest_closed (hc : Closed P) (inj : BSt → Nat → BSt) (hinj :
           (Frame.of_eq rfl rfl rfl rfl rfl rfl rfl rfl rfl rfl rfl rfl rfl (fun _ hf => List.mem_cons_of_mem _ hf))
       · exact h3
 
+/-- the part of `_process_lowest_timestamp_transit_event` after the pop (counter check and context clean-up of a Flush
+    event, the flag) -/
+theorem processLowest_tail_closed (hc : Closed P) (inj : BSt → Nat → BSt) (hinj : ∀ s site, P s → P (inj s site))
+    (s : BSt) (i : Nat) (st : Stmt) (rest : List Stmt) (hl : lowest s = some i) (hb : (s.th i).buf = st :: rest)
+    (h3 : P (popStep s i st rest)) : P (processLowest inj s).1 := by
+  rw [processLowest_eq, hl]
+  dsimp only
+  rw [hb]
+  dsimp only
+  split
+  · have h3' : P (if (popStep s i st rest).cfg.reportBeforeFlushCleanup = true then
+        checkFailures inj (popStep s i st rest) else popStep s i st rest) := by
+      split
+      · exact checkFailures_closed hc inj hinj _ h3
+      · exact h3
+    exact hc.frame _ _ (cleanupContexts_closed hc.toClosedH _ h3')
+      (Frame.of_eq rfl rfl rfl rfl rfl rfl rfl rfl rfl rfl rfl rfl rfl (fun _ hf => List.mem_cons_of_mem _ hf))
+  · exact h3
+
 theorem batchLoop_closed (hc : Closed P) (inj : BSt → Nat → BSt) (hinj : ∀ s site, P s → P (inj s site)) :
     ∀ (fuel : Nat) (s : BSt), P s → P (batchLoop inj fuel s)
   | 0, s, h => by unfold batchLoop; exact h
@@ -441,7 +481,7 @@ theorem poll_closed (hc : Closed P) (inj : BSt → Nat → BSt) (hinj : ∀ s si
   · have h3 := checkFailures_closed hc inj hinj _ (hc.frame _ _ (hinj _ 5 h1) (flushSinks_frame _))
     have h4 := allEmpty_closed hc.toClosedH _ h3
     split
-    · exact cleanupLoggers_closed hc.toClosedH _ (cleanupContexts_closed hc.toClosedH _ h4)
+    · exact cleanupLoggers_closed hc.toClosedH inj hinj _ (cleanupContexts_closed hc.toClosedH _ h4)
     · exact h4
 
 theorem exitLoop_closed (hc : Closed P) (inj : BSt → Nat → BSt) (hinj : ∀ s site, P s → P (inj s site))
@@ -452,7 +492,7 @@ theorem exitLoop_closed (hc : Closed P) (inj : BSt → Nat → BSt) (hinj : ∀ 
     dsimp only
     have h1 := allEmpty_closed hc.toClosedH s h
     split
-    · exact cleanupLoggers_closed hc.toClosedH _ (cleanupContexts_closed hc.toClosedH _
+    · exact cleanupLoggers_closed hc.toClosedH inj hinj _ (cleanupContexts_closed hc.toClosedH _
         (hc.frame _ _ (checkFailures_closed hc inj hinj _ h1) (flushSinks_frame _)))
     · have h0 : P { (allEmpty s).1 with now := (allEmpty s).1.now + tick } :=
         hc.frame _ _ h1 (Frame.of_eq rfl rfl rfl rfl rfl rfl rfl rfl rfl rfl rfl rfl rfl (fun _ h => h))
@@ -475,7 +515,9 @@ theorem runInj_closed (hc : Closed P) (table : List (Nat × Nat × List FOp)) (s
   · exact h1 _
   · refine foldl_inv P _ ?_ _ _ (h1 _)
     intro a f ha
-    exact hc.frame _ _ (hc.front a f ha) (Frame.emit _ _ rfl)
+    split
+    · exact hc.frame _ _ ha (Frame.emit _ _ rfl)
+    · exact hc.frame _ _ (hc.front a f ha) (Frame.emit _ _ rfl)
 
 theorem Closed.siteCnt (hc : Closed P) (s : BSt) (sc : List (Nat × Nat)) (h : P s) : P { s with siteCnt := sc } :=
   hc.frame s _ h (Frame.of_eq rfl rfl rfl rfl rfl rfl rfl rfl rfl rfl rfl rfl rfl (fun _ h => h))
@@ -497,6 +539,18 @@ theorem applyOp_closed (hc : Closed P) (s : BSt) (op : Op) (h : P s) : P (applyO
     · exact h
     · exact hc.gone _ true (exitLoop_closed hc _ (fun s site hs => runInj_closed hc [] s site hs) 1000 _ _
         (hc.siteCnt s [] h))
+
+theorem Closed.congr {Q : BSt → Prop} (hc : Closed P) (e : ∀ s, P s ↔ Q s) : Closed Q where
+  frame := fun s s' h f => (e _).mp (hc.frame s s' ((e _).mpr h) f)
+  refresh := fun s h => (e _).mp (hc.refresh s ((e _).mpr h))
+  ctxEmpty := fun s i h => (e _).mp (hc.ctxEmpty s i ((e _).mpr h))
+  dropCtx := fun s i h hv he hz => (e _).mp (hc.dropCtx s i ((e _).mpr h) hv he hz)
+  prepRead := fun s i h => (e _).mp (hc.prepRead s i ((e _).mpr h))
+  commitRead := fun s i h => (e _).mp (hc.commitRead s i ((e _).mpr h))
+  readOne := fun s i st rest h hq hr => (e _).mp (hc.readOne s i st rest ((e _).mpr h) hq hr)
+  pop := fun s i st rest h hb => (e _).mp (hc.pop s i st rest ((e _).mpr h) hb)
+  failReset := fun s i h hf => (e _).mp (hc.failReset s i ((e _).mpr h) hf)
+  front := fun s f h => (e _).mp (hc.front s f ((e _).mpr h))
 
 /-- **the skeleton**: a closed predicate is an invariant of every schedule -/
 theorem runOps_closed (hc : Closed P) : ∀ (ops : List Op) (s : BSt), P s → P (runOps s ops) := by
